@@ -913,18 +913,12 @@ func (f *FuncCFG) CheckGateIn(region ast.Node, from []*cfg.Block, targets map[*c
 		if c.forcesF {
 			succs = append(succs, c.b.Succs[1])
 		}
-		for _, s := range succs {
-			r := f.reach([]*cfg.Block{s}, cset, assume)
-			hit := false
-			for t := range targets {
-				if _, ok := r[t]; ok {
-					hit = true
-					break
-				}
-			}
-			if cset[s] {
-				hit = false
-			}
+		for si, s := range succs {
+			_ = si
+			// facts implied by the outcome that leads to s
+			facts := map[types.Object]bool{}
+			f.nilFactsOf(c.e, s == c.b.Succs[0], facts)
+			hit := f.reachesNilAware(s, map[*cfg.Block]bool{c.b: true}, targets, assume, facts)
 			if !hit {
 				gating[c.b] = true
 				gateExpr[c.b] = c.e
@@ -1121,4 +1115,115 @@ func (f *FuncCFG) CheckMustNode(from []*cfg.Block, targets map[*cfg.Block]bool, 
 		}
 	}
 	return true, nil, len(sites)
+}
+
+// nilFactsOf records what `cond == value` implies about identifiers compared with nil (atoms only).
+func (f *FuncCFG) nilFactsOf(cond ast.Expr, value bool, facts map[types.Object]bool) bool {
+	var atoms []struct {
+		e ast.Expr
+		v bool
+	}
+	impliedAtoms(cond, value, &atoms)
+	for _, a := range atoms {
+		be, ok := ast.Unparen(a.e).(*ast.BinaryExpr)
+		if !ok || (be.Op != token.EQL && be.Op != token.NEQ) {
+			continue
+		}
+		var id *ast.Ident
+		if x, ok := ast.Unparen(be.X).(*ast.Ident); ok && isNilIdent(f.Info, be.Y) {
+			id = x
+		} else if y, ok := ast.Unparen(be.Y).(*ast.Ident); ok && isNilIdent(f.Info, be.X) {
+			id = y
+		}
+		if id == nil {
+			continue
+		}
+		o := f.Info.ObjectOf(id)
+		isNil := (be.Op == token.EQL) == a.v
+		if old, ok := facts[o]; ok && old != isNil {
+			return false // contradiction: infeasible
+		}
+		facts[o] = isNil
+	}
+	return true
+}
+
+// reachesNilAware: can a target be reached from start without entering blocks in avoid, honouring what is
+// known about nil-ness of identifiers (facts are killed by assignments)?
+func (f *FuncCFG) reachesNilAware(start *cfg.Block, avoid, targets map[*cfg.Block]bool, assume *Assume, facts map[types.Object]bool) bool {
+	type st struct {
+		b *cfg.Block
+		k string
+	}
+	key := func(m map[types.Object]bool) string {
+		var ps []string
+		for o, v := range m {
+			ps = append(ps, fmt.Sprintf("%s@%d=%v", o.Name(), o.Pos(), v))
+		}
+		sort.Strings(ps)
+		return strings.Join(ps, ",")
+	}
+	type item struct {
+		b *cfg.Block
+		m map[types.Object]bool
+	}
+	if avoid[start] {
+		return false
+	}
+	seen := map[st]bool{}
+	work := []item{{start, facts}}
+	for len(work) > 0 {
+		it := work[len(work)-1]
+		work = work[:len(work)-1]
+		sk := st{it.b, key(it.m)}
+		if seen[sk] || len(seen) > 4000 {
+			continue
+		}
+		seen[sk] = true
+		if targets[it.b] {
+			return true
+		}
+		m := map[types.Object]bool{}
+		for k, v := range it.m {
+			m[k] = v
+		}
+		for _, n := range it.b.Nodes {
+			inspectNoLit(n, func(x ast.Node) bool {
+				switch a := x.(type) {
+				case *ast.AssignStmt:
+					for _, l := range a.Lhs {
+						if id, ok := l.(*ast.Ident); ok {
+							delete(m, f.Info.ObjectOf(id))
+						}
+					}
+				case *ast.UnaryExpr:
+					if a.Op == token.AND {
+						if id, ok := ast.Unparen(a.X).(*ast.Ident); ok {
+							delete(m, f.Info.ObjectOf(id))
+						}
+					}
+				}
+				return true
+			})
+		}
+		succs := f.Succs(it.b, assume)
+		for _, s := range succs {
+			if avoid[s] {
+				continue
+			}
+			nm := map[types.Object]bool{}
+			for k, v := range m {
+				nm[k] = v
+			}
+			if len(it.b.Succs) == 2 {
+				if c := f.Cond(it.b); c != nil {
+					if !f.nilFactsOf(c, s == it.b.Succs[0], nm) {
+						continue
+					}
+				}
+			}
+			work = append(work, item{s, nm})
+		}
+	}
+	return false
 }
